@@ -2385,6 +2385,8 @@ class BSP:
         add_faces = find_or_extend(self.faces)
 
         buf = BytesIO()
+        # The Chaos layout stores the bounds as floats, all others as integers.
+        bound: Callable[[float], float] = float if self.lump_layout is LUMP_LAYOUT_CHAOS else int
 
         node: VisTree
         for node in nodes:
@@ -2399,8 +2401,8 @@ class BSP:
 
             buf.write(self.lump_layout['NODE'].pack(
                 add_plane(node.plane), neg_ind, pos_ind,
-                int(node.mins.x), int(node.mins.y), int(node.mins.z),
-                int(node.maxes.x), int(node.maxes.y), int(node.maxes.z),
+                bound(node.mins.x), bound(node.mins.y), bound(node.mins.z),
+                bound(node.maxes.x), bound(node.maxes.y), bound(node.maxes.z),
                 add_faces(node.faces), len(node.faces), node.area_ind,
             ))
 
@@ -2420,6 +2422,8 @@ class BSP:
 
         # Some extra ambient light data.
         has_ambient = self.version <= 19
+        # The Chaos layout stores the bounds as floats, all others as integers.
+        bound: Callable[[float], float] = float if self.lump_layout is LUMP_LAYOUT_CHAOS else int
 
         for leaf in visleafs:
             # Do not deduplicate these, engine assumes they aren't when allocating memory.
@@ -2439,11 +2443,11 @@ class BSP:
                     leaf.water_id, leaf.flags.value,
                 ))
             else:
-                leafdata: tuple[Union[int, bytes], ...] = (
+                leafdata: tuple[Union[int, float, bytes], ...] = (
                     leaf.contents.value, leaf.cluster_id,
                     (leaf.area << self.lump_layout['LEAF_AREA_OFFSET'] | leaf.flags.value),
-                    int(leaf.mins.x), int(leaf.mins.y), int(leaf.mins.z),
-                    int(leaf.maxes.x), int(leaf.maxes.y), int(leaf.maxes.z),
+                    bound(leaf.mins.x), bound(leaf.mins.y), bound(leaf.mins.z),
+                    bound(leaf.maxes.x), bound(leaf.maxes.y), bound(leaf.maxes.z),
                     face_ind, len(leaf.faces),
                     brush_ind, len(leaf.brushes),
                     leaf.water_id)
